@@ -100,6 +100,12 @@ def worker(prog, name):
                 line = exit_line(fn, path)
                 finds[key] = dict(key=key, rule=rule, where="%s:%s" % (fn.file, line), text="%s: %s (returns %s; handler messages on the path: %s)" % (base, text, d, list(msgs) or "none"),
                                   path=path[-12:] if path else None)
+        for (opn, how, before) in sorted(st.pl[6]):
+            key = "C05:touched-before-size-check:%s:%s:%s:after=%s" % (base, opn, how, "|".join(before))
+            if key not in finds:
+                finds[key] = dict(key=key, rule="touched-before-size-check", where="%s:%s" % (fn.file, fn.line),
+                                  text="%s: %s is accessed (%s; handler messages so far: %s) on a path where the function's own size limit has not been established (a size above the RSIZE limit is not rejected before the operand is touched)" % (base, opn, how, list(before) or "none"),
+                                  path=path[-12:] if path else None)
         if cnt >= 2:
             add("reported-twice", "the constraint handler is invoked more than once for one call")
             continue
@@ -170,6 +176,8 @@ def worker(prog, name):
                 if not (code == -r or code == r):
                     add("code-mismatch", "the code passed to the handler (%s) differs from the negated result (%s)" % (code, r))
     return dict(findings=list(finds.values()), outcomes=len(res), classes=len(classes), states=eng.nstates, conv=conv,
+                limits=sorted({"%s>%d" % (fn.params[a]["name"] + ("*%d" % sc if sc != 1 else ""), K) for (a, sc, K) in eng.plugin.limits}),
+                operands=sorted(eng.plugin.operand_roots.values()),
                 unmodelled=sorted(eng.unmodelled), widened=len(eng.widened))
 
 
@@ -190,13 +198,17 @@ def run(ck):
             ck.fail_broken("path-state budget exceeded: " + r["budget"])
             continue
         tot_out += r["outcomes"]; tot_states += r["states"]
-        per[n] = dict(outcomes=r["outcomes"], classes=r["classes"], states=r["states"], convention=r["conv"], findings=len(r["findings"]))
+        per[n] = dict(outcomes=r["outcomes"], classes=r["classes"], states=r["states"], convention=r["conv"], findings=len(r["findings"]),
+                      size_limits=r["limits"], operands=r["operands"])
         for u in r["unmodelled"]:
             ck.notes.append("%s: external callee %s has no effect row (treated as an opaque call)" % (n, u))
         for f in r["findings"]:
             ck.report(f["key"], "H-" + f["rule"], f["where"], f["text"], dict(path=f["path"]))
     if len(names) < 135:
         ck.fail_broken("only %d exported functions with a failure convention found (< 135)" % len(names))
+    ordered = [n for n in per if per[n]["size_limits"] and per[n]["operands"]]
+    if len(ordered) < 95:
+        ck.fail_broken("ordering clause: only %d functions with a recognised RSIZE limit check and a dest/src operand (< 95)" % len(ordered))
     for n in ("_strcpy_s_chk", "_memcpy_s_chk", "_sprintf_s_chk", "sscanf_s"):
         if n in per:
             ck.sample(dict(function=n, **per[n]))
@@ -204,8 +216,11 @@ def run(ck):
     cov = dict(explanation="Path-sensitive exploration (symbolic store + linear path facts, loop phis opaque, library helpers and nested exported callees inlined to depth 3, "
                "larger callees by assume-guarantee on their own convention) of all %d exported functions with a failure indication: %d distinct (return, handler-state) "
                "path outcomes from %d explored path states. Rules at each return: handler count <= 1; error indication <=> exactly one invocation; code passed = code returned "
-               "(errno_t / negated int / EOF / NULL / false / 0 conventions per function)." % (len(per), tot_out, tot_states),
-               obligations=tot_out, discharged=tot_out - len(ck.reports), functions=len(per), per_function_sample={k: per[k] for k in list(per)[:12]},
+               "(errno_t / negated int / EOF / NULL / false / 0 conventions per function). Ordering clause: in %d functions with a recognised RSIZE limit check "
+               "(size > K whose taken side reports) no dest/src/str operand is read, written or handed to a libc routine on a path state where 'size > K' is still possible "
+               "(exempt: clearing inside the error helpers, dest == NULL length queries, size <= known object size)." % (len(per), tot_out, tot_states, len(ordered)),
+               obligations=tot_out, discharged=tot_out - len(ck.reports), functions=len(per), ordering_clause_functions=len(ordered),
+               ordering_clause_not_covered=sorted(api.base_name(n) for n in per if n not in ordered), per_function_sample={k: per[k] for k in list(per)[:12]},
                fixtures=fx, frontend=info, summary="%d functions, %d path outcomes" % (len(per), tot_out))
     return ck.finish(cov, ASSUME_TEXT + ["the registered handler returns normally and leaves errno intact", "callees listed as OPAQUE honour their own convention (each is checked as an entry point)",
                            "which argument combinations constitute a violation is taken from the code's own checks, not from the documentation"])
@@ -215,7 +230,7 @@ def selftest(ck):
     fdir = os.path.join(frontend.VERIF, "fixtures")
     prog = Program(frontend.load_sources([os.path.join(fdir, "c05.c")]))
     out = {}
-    want = {"fx_good_s": [], "fx_twice_s": ["reported-twice"], "fx_silent_s": ["error-without-handler"], "fx_wrongcode_s": ["code-mismatch"],
+    want = {"fx_touch_first_s": ["touched-before-size-check"], "fx_good_s": [], "fx_twice_s": ["reported-twice"], "fx_silent_s": ["error-without-handler"], "fx_wrongcode_s": ["code-mismatch"],
             "fx_nested_quiet_s": [], "fx_nested_noisy_s": ["handler-on-success", "reported-twice"]}
     for n, w in want.items():
         r = worker(prog, n)
